@@ -554,7 +554,6 @@ func trimOutput(s string) string {
 
 var _ = ssa.GlobalDebug
 
-
 func (x *sexp) String() string {
 	if x.list == nil {
 		return x.atom
